@@ -150,6 +150,13 @@ def rules(vb: VB, features, group):
         ("i32", "constfn", "unknown-attribute"), ("i32", "validate", "validate-without-parens"), ("i32", "derive", "derive-without-parens"), ("String", "sanitize", "sanitize-without-parens"),
         ("i32", "validate()", "empty-validate"), ("i32", "default", "default-without-value"),
     ]
+    unknown += [
+        ("String", "sanitize(trim, lowercas)", "unknown-sanitizer-last"), ("String", "sanitize(trim, Lowercase, with = |s| s)", "mis-cased-sanitizer-middle"),
+        ("String", "validate(not_empty, len_char_maxx = 3)", "unknown-validator-last"), ("i32", "validate(greater = 1, finite)", "wrong-family-validator-last"),
+        ("i32", "validate(greater = 1, not_empty, less = 9)", "wrong-family-validator-middle"), ("f64", "validate(finite, len_char_max = 3)", "wrong-family-validator-last"),
+        ("i32", "derive(Debug, Foo, Clone)", "unknown-trait-middle"), ("i32", "derive(Debug, Clone, IntoIterator)", "wrong-family-trait-last"), ("String", "derive(Debug, Copy, Clone)", "wrong-family-trait-middle"),
+        ("i32", "derive(Debug), bogus, validate(greater = 1)", "unknown-attribute-middle"), ("i32", "validate(greater = 1), derive(Debug), bogus", "unknown-attribute-last"),
+    ]
     for inner, attrs, what in unknown:
         add(decl("T", inner, attrs), R, "R4:" + what + ":" + attrs)
     add(decl("T", "String", "sanitize(trim), validate(not_empty), derive(Debug)"), A, "R4:neighbour:well-spelled")
@@ -172,6 +179,8 @@ def rules(vb: VB, features, group):
     add(decl("T", "String", "sanitize(lowercase, uppercase)"), R, "R6:lowercase+uppercase")
     add(decl("T", "String", "sanitize(uppercase, trim, lowercase)"), R, "R6:lowercase+uppercase")
     add(decl("T", "String", "sanitize(trim, uppercase)"), A, "R6:neighbour")
+    add(decl("T", "String", "sanitize(with = |s| s, lowercase, trim, uppercase)"), R, "R6:lowercase+uppercase:with-first")
+    add(decl("T", "String", "sanitize(trim, lowercase, with = |s| s, uppercase)"), R, "R6:lowercase+uppercase:with-between")
     # R7 literal bounds excluding each other, every relative position
     for ty, lit in (("i32", lambda v: str(v)), ("u8", lambda v: str(v)), ("f64", lambda v: "%s.0" % v), ("f32", lambda v: "%s.5" % v), ("i128", lambda v: str(v))):
         for lk, uk in itertools.product(["greater", "greater_or_equal"], ["less", "less_or_equal"]):
@@ -191,6 +200,14 @@ def rules(vb: VB, features, group):
                     else:
                         exp = A
                     add(decl("T", ty, "validate(%s)" % ", ".join(parts)), exp, "R7:bounds:%s:%s/%s:%s..%s" % (ty, lk, uk, lo, hi))
+    # contradictory literal bounds with other validators before / between / after them
+    for items in (["predicate = |x| true", "greater = 5", "less = 3"], ["greater = 5", "predicate = |x| true", "less = 3"], ["less = 3", "greater = 5", "predicate = |x| true"],
+                  ["predicate = |x| true", "less_or_equal = 3", "greater_or_equal = 5"]):
+        add(decl("T", "i32", "validate(%s)" % ", ".join(items)), R, "R7:bounds:with-predicate-at-various-positions")
+    for items in (["finite", "greater = 5.0", "less = 3.0"], ["greater = 5.0", "finite", "less = 3.0"], ["less_or_equal = 3.0", "greater_or_equal = 5.0", "finite"]):
+        add(decl("T", "f64", "validate(%s)" % ", ".join(items)), R, "R7:bounds:with-finite-at-various-positions")
+    for items in (["not_empty", "len_char_min = 5", "len_char_max = 3"], ["len_char_max = 3", "not_empty", "len_char_min = 5"], ["len_char_min = 5", "predicate = |s| true", "len_char_max = 3"]):
+        add(decl("T", "String", "validate(%s)" % ", ".join(items)), R, "R7:len-bounds:various-positions")
     add(decl("T", "i32", "validate(greater = -3, less = -5)"), R, "R7:bounds:negative")
     add(decl("T", "i32", "validate(greater = -5, less = -3)"), A, "R7:bounds:negative-neighbour")
     add(decl("T", "String", "validate(len_char_min = 5, len_char_max = 3)"), R, "R7:len-bounds")
@@ -212,6 +229,9 @@ def rules(vb: VB, features, group):
     add(decl("T", "String", "derive(TryFrom, From)"), R, "R9:From+TryFrom")
     add(decl("T", "i32", "validate(greater = 1), derive(From)"), R, "R9:From-with-validators")
     add(decl("T", "i32", "sanitize(with = |x| x), derive(From)"), A, "R9:neighbour:From-with-sanitizer-only")
+    add(decl("T", "i32", "validate(greater = 1), derive(Debug, Clone, From, Display)"), R, "R9:From-with-validators:middle-of-derive-list")
+    add(decl("T", "String", "derive(Debug, From, Clone, TryFrom, Display)"), R, "R9:From+TryFrom:non-adjacent")
+    add(decl("T", "f64", "derive(From), validate(finite)"), R, "R9:From-with-validators:derive-before-validate")
     # R10 float Eq / Ord
     add(decl("T", "f64", "validate(greater = 0.0), derive(PartialEq, Eq)"), R, "R10:Eq-without-finite")
     add(decl("T", "f64", "derive(PartialEq, Eq)"), R, "R10:Eq-without-validation")
@@ -227,6 +247,7 @@ def rules(vb: VB, features, group):
     add(decl("T", "String", "validate(not_empty), derive(Default)"), R, "R11:Default-without-default")
     add(decl("T", "Vec<i32>", "derive(Default)"), R, "R11:Default-without-default")
     add(decl("T", "i32", "derive(Default), default = 5"), A, "R11:neighbour")
+    add(decl("T", "f64", "validate(finite), derive(Debug, Clone, Default, PartialEq)"), R, "R11:Default-without-default:middle-of-derive-list")
     add(decl("T", "i32", "default = 5"), U, "R11:default-without-derive")
     # R12 regex
     if "regex" in features:
@@ -235,6 +256,13 @@ def rules(vb: VB, features, group):
         add(decl("T", "String", 'validate(regex = "^a+$")'), A, "R12:neighbour")
         add(decl("T", "String", "validate(regex = RX)", pre="static RX: ::std::sync::LazyLock<::regex::Regex> = ::std::sync::LazyLock::new(|| ::regex::Regex::new(\"a\").unwrap());\n"), A, "R12:neighbour:static-path")
         add(decl("T", "String", "validate(regex = 5)"), R, "R12:regex-not-a-string-or-path")
+        # the same rule in every position among sibling validators (a check that only looks at the first / last item must not pass)
+        for others_before, others_after in ((["not_empty"], []), ([], ["not_empty"]), (["len_char_min = 1", "len_char_max = 9"], []), (["len_char_min = 1"], ["len_char_max = 9"]),
+                                            (["predicate = |s| true"], ["not_empty"])):
+            items = others_before + ['regex = "^[a-z"'] + others_after
+            add(decl("T", "String", "validate(%s)" % ", ".join(items)), R, "R12:invalid-regex-literal:position-%d-of-%d" % (len(others_before) + 1, len(items)))
+            items = others_before + ['regex = "^[a-z]+$"'] + others_after
+            add(decl("T", "String", "validate(%s)" % ", ".join(items)), A, "R12:neighbour:position-%d-of-%d" % (len(others_before) + 1, len(items)))
     else:
         add(decl("T", "String", 'validate(regex = "^a+$")'), R, "R13:regex-without-feature")
     # R13 feature-gated flags
